@@ -948,6 +948,50 @@ def locals_owner(F):
                 if not ok:
                     r.violate("%s | add_local args" % fn["path"], F.loc(fn, c), "add_local is called with a parameter count / locals list that do not belong to the same function object (%s, %s, %s)" % (snippet(_repo(), fn["file"], args[1]["sp"]), p2, p3))
     r.count("add_local_callers", n_call)
+    # emission: the runs handed to wasm_encoder::Function::new are the stored runs, one for one — each stored (count, type)
+    # is appended once per pass of the conversion loop and nothing edits the counts of the vector being built
+    for ei_ in F.find_fns(name="encode_internal", self_adt="Module"):
+        for c in walk(ei_["body"]):
+            if not (c.get("k") == "Call" and (c.get("callee") or "").endswith("wasm_encoder::Function::new") and c.get("args")):
+                continue
+            a0 = peel(c["args"][0])
+            if not (a0.get("k") == "Path" and a0.get("res", {}).get("r") == "local"):
+                continue
+            xh = a0["res"]["hid"]
+            edits = []
+            for x in walk(ei_["body"]):
+                if x.get("k") in ("Assign", "AssignOp"):
+                    root_ = x["lhs"]
+                    while isinstance(root_, dict) and root_.get("k") in ("Unary", "Field", "Index"):
+                        root_ = root_.get("a") or root_.get("base")
+                    root_ = peel(root_) if isinstance(root_, dict) else {}
+                    if root_.get("k") == "Path" and root_.get("res", {}).get("hid") == xh and x["k"] == "AssignOp":
+                        edits.append(x)
+                    elif root_.get("k") == "Path" and root_.get("res", {}).get("r") == "local":
+                        _pt, scr_, _k = binding_site(ei_["body"], root_["res"]["hid"])
+                        if scr_ is not None and any(y.get("k") == "MethodCall" and y["method"] in ("last_mut", "iter_mut", "get_mut", "first_mut")
+                                                    and peel(y["recv"]).get("res", {}).get("hid") == xh for y in walk(scr_)):
+                            edits.append(x)
+            pushes = [x for x in walk(ei_["body"]) if x.get("k") == "MethodCall" and x["method"] == "push" and peel(x["recv"]).get("res", {}).get("hid") == xh]
+            cond_push = []
+            for pu in pushes:
+                loops_ = [m_ for m_ in walk(ei_["body"]) if m_.get("k") == "Match" and m_.get("src") == "ForLoopDesugar" and any(y is pu for y in walk(m_))]
+                # the innermost loop around the push is the conversion loop
+                loops_ = [m_ for m_ in loops_ if not any(o is not m_ and any(y is o for y in walk(m_)) for o in loops_)]
+                for m_ in loops_:
+                    if True:
+                        lp_ = [y for y in walk(m_["arms"][0]["body"]) if y.get("k") == "Loop"]
+                        inner_ = [y for y in walk(m_["arms"][0]["body"]) if y.get("k") == "Match" and y is not m_]
+                        body_ = next((arm["body"] for arm in (inner_[0]["arms"] if inner_ else []) if arm["pat"].get("variant") == "Some"), None)
+                        if body_ is not None and not every_iteration(body_, pu)[0]:
+                            cond_push.append(pu)
+            ok = not edits and not cond_push
+            r.ob(ok, {"declared locals emitted run by run": ok})
+            if not ok:
+                bad_ = (edits + cond_push)[0]
+                r.violate("%s | emitted locals edited" % ei_["path"], F.loc(ei_, bad_),
+                          "the run-length list handed to wasm_encoder::Function::new is not the stored list copied run by run (%s): declared locals change count or position in the encoded function" % (
+                              "a count of the vector being built is modified" if edits else "a stored run is appended only under a condition"))
     return r
 
 
